@@ -39,6 +39,13 @@ func TryLock(m sync.Locker, site string) bool {
 }
 
 func Unlock(m sync.Locker) {
+	unlockNoYield(m)
+	if g := cur(); g != nil && g.sim.cfg.YieldAfterUnlock {
+		yield(g, "unlock")
+	}
+}
+
+func unlockNoYield(m sync.Locker) {
 	m.Unlock()
 	if s := S.Load(); s != nil {
 		s.wakeAll(m)
@@ -62,6 +69,9 @@ func RUnlock(m *sync.RWMutex) {
 	if s := S.Load(); s != nil {
 		s.wakeAll(sync.Locker(m))
 	}
+	if g := cur(); g != nil && g.sim.cfg.YieldAfterUnlock {
+		yield(g, "runlock")
+	}
 }
 
 // CondWait replaces c.Wait(): own wait queue; which waiter Signal wakes is a scheduler choice
@@ -76,7 +86,7 @@ func CondWait(c *sync.Cond, site string) {
 	s.mu.Lock()
 	s.conds[c] = append(s.conds[c], g)
 	s.mu.Unlock()
-	Unlock(c.L)
+	unlockNoYield(c.L)
 	block(g, c, site)
 	Lock(c.L, site)
 }
